@@ -103,7 +103,7 @@ def _fault_step(rng, cfg, hi, sim):
             "h": hi,
             "op": "wfail",
             "fmt": rng.choice(sorted(O.WRITE_FAULT_TARGETS)),
-            "when": rng.choice(["before", "after"]),
+            "when": rng.choice(["before", "before", "after", "after", "lost", "short", "read"]),
             "errno": rng.choice(["ENOSPC", "EACCES", "EIO"]),
         }
     op = rng.choice(cfg["queries"])
